@@ -2,12 +2,14 @@ package main
 
 import (
 	"fmt"
+	"github.com/CrowdStrike/csproto"
 	"time"
 
 	gogoproto "github.com/gogo/protobuf/proto"
 	gogodesc "github.com/gogo/protobuf/protoc-gen-gogo/descriptor"
 	gogotypes "github.com/gogo/protobuf/types"
 	"google.golang.org/protobuf/proto"
+	"google.golang.org/protobuf/types/descriptorpb"
 	"google.golang.org/protobuf/types/known/durationpb"
 	"google.golang.org/protobuf/types/known/emptypb"
 	"google.golang.org/protobuf/types/known/structpb"
@@ -68,5 +70,110 @@ func runtimeNested(r *hx.Rng) {
 	for _, failing := range []bool{false, true} {
 		b := r.Bytes(9)
 		nestCase("nested-legacyv1", "rt", randTag(r), &legacyV1{b: b, fail: failing}, b, failing, r)
+	}
+}
+
+// C19 on messages with a past: (1) a nested message that was sized / marshaled before and modified since must be
+// encoded as it is NOW (the runtimes cache sizes inside the message); (2) DecodeNested into a destination that
+// already holds a message must leave exactly the decoded message there, as the runtimes' Unmarshal does.
+func runtimeNestedHistories(r *hx.Rng) {
+	str := func(s string) *string { return &s }
+	// (1) encode after size-then-modify
+	type enc struct {
+		name   string
+		m      interface{}
+		warm   func()
+		modify func()
+		fresh  func() []byte
+	}
+	gm := &descriptorpb.DescriptorProto{Name: str("M"), Field: []*descriptorpb.FieldDescriptorProto{{Name: str("f")}}}
+	gg := &gogodesc.DescriptorProto{Name: str("M"), Field: []*gogodesc.FieldDescriptorProto{{Name: str("f")}}}
+	cases := []enc{
+		{"googlev2", gm, func() { _ = proto.Size(gm); _, _ = proto.Marshal(gm); _ = csproto.Size(gm) },
+			func() {
+				gm.Field[0].Name = str("a much longer field name than before")
+				gm.Field = append(gm.Field, &descriptorpb.FieldDescriptorProto{Name: str("g")})
+			},
+			func() []byte { b, _ := proto.MarshalOptions{Deterministic: true}.Marshal(proto.Clone(gm)); return b }},
+		{"gogo", gg, func() { _ = gogoproto.Size(gg); _, _ = gogoproto.Marshal(gg); _ = csproto.Size(gg) },
+			func() {
+				gg.Field[0].Name = str("a much longer field name than before")
+				gg.Field = append(gg.Field, &gogodesc.FieldDescriptorProto{Name: str("g")})
+			},
+			func() []byte { b, _ := gogoproto.Marshal(gogoproto.Clone(gg)); return b }},
+	}
+	for _, c := range cases {
+		c.warm()
+		c.modify()
+		body := c.fresh()
+		tag := randTag(r)
+		exp := refBytes(tag, body)
+		buf := make([]byte, len(exp))
+		sink.OracleN++
+		got := func() (out string) {
+			defer func() {
+				if x := recover(); x != nil {
+					out = "panic"
+				}
+			}()
+			e := csproto.NewEncoder(buf)
+			if err := e.EncodeNested(tag, c.m); err != nil {
+				return "err " + err.Error()
+			}
+			return hx.B(buf[:e.VerifOffset()])
+		}()
+		if got != hx.B(exp) {
+			fail("oracle", "EncodeNested of a message that was sized earlier and modified since did not write its current contents", c.name+" size, modify, EncodeNested", hx.B(exp), got, "nest-stale")
+		}
+	}
+	// (2) decode into a populated destination
+	type dcase struct {
+		name  string
+		dest  interface{}
+		body  []byte
+		equal func() bool
+	}
+	gsrc := &gogodesc.DescriptorProto{Field: []*gogodesc.FieldDescriptorProto{{Name: str("y")}}}
+	gbody, _ := gogoproto.Marshal(gsrc)
+	gdest := &gogodesc.DescriptorProto{Name: str("previous"), Field: []*gogodesc.FieldDescriptorProto{{Name: str("x")}}}
+	vsrc := &descriptorpb.DescriptorProto{Field: []*descriptorpb.FieldDescriptorProto{{Name: str("y")}}}
+	vbody, _ := proto.Marshal(vsrc)
+	vdest := &descriptorpb.DescriptorProto{Name: str("previous"), Field: []*descriptorpb.FieldDescriptorProto{{Name: str("x")}}}
+	tsrc := &gogotypes.Timestamp{Nanos: 7}
+	tbody, _ := tsrc.Marshal()
+	tdest := &gogotypes.Timestamp{Seconds: 42, Nanos: 1}
+	wdest := wrapperspb.String("previous")
+	for _, c := range []dcase{
+		{"gogo-plain", gdest, gbody, func() bool { return gogoproto.Equal(gdest, gsrc) }},
+		{"googlev2", vdest, vbody, func() bool { return proto.Equal(vdest, vsrc) }},
+		{"gogotypes", tdest, tbody, func() bool { return gogoproto.Equal(tdest, tsrc) }},
+		{"googlev2-empty-payload", wdest, []byte{}, func() bool { return proto.Equal(wdest, &wrapperspb.StringValue{}) }},
+	} {
+		in := refBytes(3, c.body)
+		sink.OracleN++
+		got := func() (out string) {
+			defer func() {
+				if x := recover(); x != nil {
+					out = "panic"
+				}
+			}()
+			d := csproto.NewDecoder(in)
+			if _, _, err := d.DecodeTag(); err != nil {
+				return "tag-err"
+			}
+			if err := d.DecodeNested(c.dest); err != nil {
+				return "err " + err.Error()
+			}
+			if d.Offset() != len(in) {
+				return fmt.Sprintf("offset %d", d.Offset())
+			}
+			if !c.equal() {
+				return fmt.Sprintf("not equal: %v", c.dest)
+			}
+			return "ok"
+		}()
+		if got != "ok" {
+			fail("oracle", "DecodeNested into a destination that already held a message did not leave exactly the decoded message", c.name+" input="+hx.B(in), "equal to the encoded message", got, "nest-merge")
+		}
 	}
 }
